@@ -50,6 +50,11 @@ CLAIMED["C13"] = ("ovf-codec", "exploration",
   "Level 1: request targets generated from an RFC 3986/9112 grammar are parsed by the real extraction and by an independent extractor, which must agree on host, port, kind and refusal. Level 2: the real get_request_addr runs on a real loopback connection against a scripted application that sends SOCKS5/CONNECT/absolute-URI handshakes in generated segmentations with optional early tunnel payload; returned target, protocol replies and the exact bytes left for the tunnel are checked; malformed and unsupported requests must be refused. Exploration.",
   "Trusted: independent extractor (40 lines), reference SOCKS5 parsers; loopback TCP. Deadline-based outcomes (5 s for a microsecond event) are re-run in isolation before being reported.", "DESIGN.md 5/C13")
 
+CLAIMED["C14"] = ("ovf-codec", "exploration",
+  "round-trip property testing of both address encodings against reference byte layouts, plus end-to-end transmission of every address the real local decoders accept through each real client codec and server decoder",
+  "decode(encode(a) ++ tail) == (a, tail) for generated representable addresses in the SOCKS5-style and VMess-style encodings (bytes compared with an independent encoder; length helpers must agree). Addresses obtained from the real SOCKS5 / SOCKS5-UDP decoders and the real HTTP authority extraction for names of 0..1024 bytes are pushed through every real client codec's first encode and the real server decoder: identical address and payload, or refusal before any byte is produced. Exploration.",
+  "Trusted: reference address encoders (30 lines).", "DESIGN.md 5/C14")
+
 PENDING = {}
 
 def main():
